@@ -324,6 +324,11 @@ pub(crate) struct State {
     pub listeners: BTreeMap<(IpAddr, u16), Listener>,
     pub default_connect: ConnectBehaviour,
     pub hosts: BTreeMap<String, Vec<IpAddr>>,
+    /// IPv6 scope ids (interface numbers) of a host's addresses, by position in `hosts` (0 = none)
+    pub host_scopes: BTreeMap<String, Vec<u32>>,
+    /// behaviour of (address, scope id, port) where it differs from the listener's own: the same link-local
+    /// address on two interfaces is two destinations
+    pub scoped: BTreeMap<(IpAddr, u32, u16), ConnectBehaviour>,
     /// scripted duration of a name lookup, per host (absent = instantaneous)
     pub dns_latency: BTreeMap<String, u64>,
     pub env: BTreeMap<String, String>,
@@ -805,6 +810,8 @@ impl Sim {
             listeners: BTreeMap::new(),
             default_connect: ConnectBehaviour::Refuse { latency_ns: 0 },
             hosts: BTreeMap::new(),
+            host_scopes: BTreeMap::new(),
+            scoped: BTreeMap::new(),
             dns_latency: BTreeMap::new(),
             env: BTreeMap::new(),
             sched: cfg.sched,
@@ -820,6 +827,16 @@ impl Sim {
 
     pub fn add_host(&self, name: &str, addrs: Vec<IpAddr>) {
         self.k.lock().hosts.insert(name.to_ascii_lowercase(), addrs);
+    }
+
+    /// scope ids for the (IPv6) addresses of `name`, by position
+    pub fn set_host_scopes(&self, name: &str, scopes: Vec<u32>) {
+        self.k.lock().host_scopes.insert(name.to_ascii_lowercase(), scopes);
+    }
+
+    /// what a connection attempt to `ip%scope` port `port` meets (the listener at `ip`:`port` supplies the peer)
+    pub fn set_scoped_behaviour(&self, ip: IpAddr, scope: u32, port: u16, behaviour: ConnectBehaviour) {
+        self.k.lock().scoped.insert((ip, scope, port), behaviour);
     }
 
     /// make lookups of `name` take `latency_ns` of simulated time
@@ -1036,12 +1053,20 @@ pub(crate) fn resolve(host: &str, port: u16) -> std::io::Result<Vec<SocketAddr>>
         }
     }
     let r = g.hosts.get(&host.to_ascii_lowercase()).cloned();
+    let scopes = g.host_scopes.get(&host.to_ascii_lowercase()).cloned().unwrap_or_default();
     let now = g.now;
     let n = r.as_ref().map(|v| v.len()).unwrap_or(0);
     g.history.resolves.push((now, host.to_string(), port, n));
     g.log(me, "resolve", hash_bytes(host.as_bytes()), n as u64);
     match r {
-        Some(v) => Ok(v.into_iter().map(|ip| SocketAddr::new(ip, port)).collect()),
+        Some(v) => Ok(v
+            .into_iter()
+            .enumerate()
+            .map(|(i, ip)| match (ip, scopes.get(i).copied().unwrap_or(0)) {
+                (IpAddr::V6(a), sc) if sc != 0 => SocketAddr::V6(std::net::SocketAddrV6::new(a, port, 0, sc)),
+                _ => SocketAddr::new(ip, port),
+            })
+            .collect()),
         None => Err(std::io::Error::new(std::io::ErrorKind::Other, "failed to lookup address information")),
     }
 }
@@ -1067,6 +1092,10 @@ pub(crate) fn connect(addr: &SocketAddr, timeout_ns: u64) -> std::io::Result<(K,
             }
         }
         None => default_connect,
+    };
+    let beh = match addr {
+        SocketAddr::V6(a) if a.scope_id() != 0 => g.scoped.get(&(addr.ip(), a.scope_id(), addr.port())).copied().unwrap_or(beh),
+        _ => beh,
     };
     g.log(me, "connect", hash_bytes(addr.to_string().as_bytes()), timeout_ns);
     let (wait, outcome): (u64, Result<(), E>) = match beh {
